@@ -1,13 +1,23 @@
 """escape engine (property C17): the REAL build_service_text (hook
 crate::udev_utils::verif_build_service_text) is run on generated lists of
 exclude patterns (harness/src/engines/escape.rs); ocaml/escape_check.ml then
-(a) compares every returned unit text with the extracted Coq model
-    (Escape.build_service_text)                       -> diffs, class TEXT
-(b) reads the REAL text back with the extracted, escaper-independent
-    EscapeSpec.c17_check (Systemd.unit_exec_start + Systemd.decode) and compares
-    the argument vector with what the property demands -> hits C17.roundtrip
-In the thorough tier the decoder itself is compared (accept/reject) with the
-installed `systemd-analyze verify` on generated ExecStart lines."""
+(a) applies the extracted EscapeSpec.text_class_ok to every returned unit text:
+    systemd finds exactly one ExecStart= assignment in [Service]
+    (Systemd.service_exec_starts), its value ends byte for byte with what the
+    extracted Coq model writes from the exclude region on (Escape.build_exclude_text
+    and " --dev-file /%I"), and what is in front of that is an intact prefix
+                                                       -> diffs, class TEXT.
+    The other lines of the unit and the words of the front part (program path,
+    --verbose, layout path) are not compared; how many accepted real texts differ
+    from the model's full text outside the ExecStart= line
+    (unit_text_differs_outside_exec_start) or in the front part of that line
+    (exec_start_front_part_differs_from_model) is recorded, as information
+(b) judges the REAL text with the extracted, escaper-independent
+    EscapeSpec.c17_check (Systemd.service_exec_starts + Systemd.decode + the shape
+    of the argument vector the property demands)      -> hits C17.roundtrip
+In the thorough tier the decoder and the unit-file reader themselves are compared
+(accept/reject) with the installed `systemd-analyze verify` on generated
+ExecStart lines and hand-written unit files."""
 import os, json, re, time, glob, shutil, subprocess, random
 from concurrent.futures import ThreadPoolExecutor
 
@@ -52,8 +62,20 @@ def run_checker(ctx, work):
     return text
 
 
+EXPECTED = ("systemd finds exactly one ExecStart= assignment in [Service] and reads it as: a program and its options, among them "
+            "--layout-file <path> and --only-if-keyboard and no --exclude; then --exclude <pattern bytes> for each pattern, in order; "
+            "then --dev-file /dev/input/event3")
+
+
+def show_exec(field):
+    if field in ("PANIC", "UNLOADABLE", "NONE"):
+        return field
+    return [bytes.fromhex("" if h == "-" else h).decode("utf-8", "backslashreplace") for h in field.split(",")]
+
+
 def parse_out(text):
     diffs, hits, summary, samples = [], [], {}, []
+    last_diff = {}
     for line in text.split("\n"):
         if line.startswith("DIFF "):
             m = re.match(r"DIFF id=(\d+) tag=(\S+) class=(\w+) pats=(\S+) impl=(\S+) model=(\S+)$", line)
@@ -61,7 +83,13 @@ def parse_out(text):
                 pats = parse_pats(m.group(4))
                 diffs.append({"engine": "escape", "class": m.group(3),
                               "input": {"patterns": pats_text(pats), "pats_field": m.group(4), "family": m.group(2)},
-                              "impl": m.group(5)[:4000], "model": m.group(6)[:4000]})
+                              "impl": m.group(5)[:4000], "model": m.group(6)[:4000],
+                              "compared": "the one ExecStart= value of [Service] as systemd finds it in the real unit text must end with the model's text from the exclude region on and have an intact front part (impl/model: the full texts, hex)"})
+                last_diff[m.group(1)] = diffs[-1]
+        elif line.startswith("EXECSTART "):
+            m = re.match(r"EXECSTART id=(\d+) impl=(\S+) model=(\S+)$", line)
+            if m and m.group(1) in last_diff:
+                last_diff.pop(m.group(1)).update({"impl_exec_start": show_exec(m.group(2)), "model_exec_start": show_exec(m.group(3))})
         elif line.startswith("MONITOR "):
             m = re.match(r"MONITOR id=(\d+) tag=(\S+) clause=(\S+) pats=(\S+) env=(\S+) observed=(.*?) text=(\S+)$", line)
             if m:
@@ -70,7 +98,7 @@ def parse_out(text):
                              "input": {"patterns": pats_text(pats), "pats_field": m.group(4), "family": m.group(2),
                                        "environment": m.group(5), "instance": "dev/input/event3"},
                              "observed": m.group(6), "unit_text_hex": m.group(7)[:6000],
-                             "expected": "argv = fixed arguments, then --exclude <pattern bytes> for each pattern, then --dev-file /dev/input/event3"})
+                             "expected": EXPECTED})
         elif line.startswith("SUMMARY "):
             for k, v in re.findall(r"(\w+)=(\d+)", line):
                 summary[k] = summary.get(k, 0) + int(v)
@@ -216,6 +244,98 @@ def validate_decoder(ctx, work, case_lines, seed):
             "decoder_validation": "accept/reject of Systemd.decode vs `systemd-analyze verify` (v252) on unit files x@.service; a line systemd only accepts with the warning 'Ignoring unknown escape sequences' counts as rejected"}
 
 
+# ---------------------------------------------------------------- unit-file reader vs systemd-analyze
+
+UNIT_HEAD = b"[Unit]\nDescription=x\n[Service]\nType=simple\n"
+HAND_UNITS = {
+    "plain": UNIT_HEAD + b"ExecStart=/bin/true a\n",
+    "comment-inside-continued-line": UNIT_HEAD + b"ExecStart=/bin/true a \\\n#'\nb\n",
+    "no-comment-inside-continued-line": UNIT_HEAD + b"ExecStart=/bin/true a \\\nx'\nb\n",
+    "indented-comment-inside-continued-line": UNIT_HEAD + b"ExecStart=/bin/true a \\\n   ;'\nb\n",
+    "comment-then-more-continuation": UNIT_HEAD + b"ExecStart=/bin/true a \\\n#' \\\nb \\\nc\n",
+    "empty-line-ends-continuation": UNIT_HEAD + b"ExecStart=/bin/true a \\\n\nb='\n",
+    "continuation-swallows-next-assignment": UNIT_HEAD + b"ExecStart=/bin/true a\\\nFoo=bar\nExecStart=/bin/true b\n",
+    "escaped-backslash-is-no-continuation": UNIT_HEAD + b"ExecStart=/bin/true a\\\\\nExecStart=/bin/true b\n",
+    "bom-dropped-on-a-later-line": UNIT_HEAD + b"ExecStart=/bin/true a \\\n\xef\xbb\xbf'\n",
+    "bom-then-hash-is-no-comment": b"\xef\xbb\xbf#x\n" + UNIT_HEAD + b"ExecStart=/bin/true a\n",
+    "second-bom-stays": b"\xef\xbb\xbf[Unit]\nDescription=x\n\xef\xbb\xbf[Service]\nType=simple\nExecStart=/bin/true a\n",
+    "bom-on-second-line": b"[Unit]\nDescription=x\n\xef\xbb\xbf[Service]\nType=simple\nExecStart=/bin/true a\n",
+    "cr-line-ends": UNIT_HEAD.replace(b"\n", b"\r") + b"ExecStart=/bin/true a\r",
+    "crlf-continuation": UNIT_HEAD.replace(b"\n", b"\r\n") + b"ExecStart=/bin/true a \\\r\nb'\r\n",
+    "lflf-ends-continuation": UNIT_HEAD + b"ExecStart=/bin/true a \\\n\nb'\n",
+    "line-not-utf8-clean": UNIT_HEAD + b"ExecStart=/bin/true \xff\n",
+    "other-line-not-utf8-clean": UNIT_HEAD + b"Foo=\xff\nExecStart=/bin/true a\n",
+    "no-key": UNIT_HEAD + b"=x\nExecStart=/bin/true a\n",
+    "blanks-around-header-and-key": b"  [Unit]  \nDescription=x\n [Service]\t\nType=simple\n  ExecStart  =   /bin/true a  \n",
+    "section-name-case": b"[Unit]\nDescription=x\n[service]\nType=simple\nExecStart=/bin/true a\n",
+    "key-case": UNIT_HEAD + b"execstart=/bin/true a\n",
+    "text-after-section-header": b"[Unit]\nDescription=x\n[Service] x\nType=simple\nExecStart=/bin/true a\n",
+    "unclosed-section-header": b"[Unit]\nDescription=x\n[Service\nType=simple\nExecStart=/bin/true a\n",
+    "exec-start-in-install": UNIT_HEAD + b"[Install]\nExecStart=/bin/true a\n",
+    "exec-start-in-unit": b"[Unit]\nDescription=x\nExecStart=/bin/true a\n[Service]\nType=simple\n",
+    "exec-start-before-any-section": b"ExecStart=/bin/true a\n" + UNIT_HEAD,
+    "exec-start-in-unknown-section": UNIT_HEAD + b"[Foo]\nExecStart=/bin/true a\n",
+    "service-section-twice": b"[Service]\nType=simple\n[Unit]\nDescription=x\n[Service]\nExecStart=/bin/true a\n",
+    "no-final-newline": UNIT_HEAD + b"ExecStart=/bin/true a",
+    "continuation-open-at-end": UNIT_HEAD + b"ExecStart=/bin/true a \\",
+    "semicolon-comment": UNIT_HEAD + b";ExecStart=/bin/false '\nExecStart=/bin/true a\n",
+    "nul-ends-line": UNIT_HEAD + b"ExecStart=/bin/true a\0b'\n",
+    # (a reset after a well-formed line is fine for systemd and refused by the reader: documented strictness, not compared)
+    "reset-after-malformed-line": UNIT_HEAD + b"ExecStart=/bin/true '\nExecStart=\nExecStart=/bin/true b\n",
+    "blank-reset-after-malformed-line": UNIT_HEAD + b"ExecStart=/bin/true '\nExecStart=   \nExecStart=/bin/true b\n",
+    "two-exec-starts": UNIT_HEAD + b"ExecStart=/bin/true a\nExecStart=/bin/true b\n",
+    "other-settings": b"[Unit]\nDescription=Something else\nAfter=network.target\n\n[Service]\nType=simple\nRestart=on-failure\nExecStart=/bin/true a\nUser=nobody\n\n[Install]\nWantedBy=multi-user.target\n",
+}
+
+
+def sd_verdict_unit(args):
+    d, content = args
+    os.makedirs(d, exist_ok=True)
+    with open(os.path.join(d, "x@.service"), "wb") as f:
+        f.write(content)
+    try:
+        p = subprocess.run(["systemd-analyze", "verify", "./x@.service"], cwd=d, stdout=subprocess.PIPE, stderr=subprocess.STDOUT, timeout=60)
+    except Exception as ex:  # noqa
+        return None, str(ex)
+    out = p.stdout.decode("utf-8", "replace")
+    return p.returncode == 0 and "Ignoring unknown escape sequences" not in out, out.strip().replace("\n", " | ")[:300]
+
+
+def validate_reader(ctx, work):
+    """accept/reject of Systemd.service_exec_starts + Systemd.decode vs systemd-analyze verify on hand-written unit
+    files (all Type=simple): systemd accepts the unit iff the reader finds exactly one ExecStart= assignment in [Service]
+    and the decoder accepts its value"""
+    if shutil.which("systemd-analyze") is None:
+        return {"unit_reader_files_checked": 0, "unit_reader_disagreements": 0, "unit_reader_validation": "skipped: systemd-analyze not installed"}
+    names = sorted(HAND_UNITS)
+    os.makedirs(work, exist_ok=True)
+    uf = os.path.join(work, "units.hex")
+    open(uf, "w").write("\n".join(HAND_UNITS[n].hex() for n in names) + "\n")
+    rc, out, _ = ctx["sh"]([ctx["model_exe"], "--exec-starts", uf], timeout=600)
+    answers = [x for x in out.split("\n") if x.startswith("UNLOADABLE") or x.startswith("EXECSTARTS")]
+    if rc != 0 or len(answers) != len(names):
+        return {"unit_reader_files_checked": 0, "unit_reader_disagreements": 0, "unit_reader_validation": "failed: reader run rc=%d (%d of %d answers)" % (rc, len(answers), len(names))}
+    single = [(i, a.split(" ")[2]) for i, a in enumerate(answers) if a.startswith("EXECSTARTS 1 ")]
+    lf = os.path.join(work, "values.hex")
+    open(lf, "w").write("\n".join(v for _, v in single) + "\n")
+    rc, out, _ = ctx["sh"]([ctx["model_exe"], "--decode-lines", lf], timeout=600)
+    verdicts = [x for x in out.split("\n") if x.startswith("ACCEPT") or x.startswith("REJECT")]
+    if rc != 0 or len(verdicts) != len(single):
+        return {"unit_reader_files_checked": 0, "unit_reader_disagreements": 0, "unit_reader_validation": "failed: decoder run rc=%d" % rc}
+    mine = [False] * len(names)
+    for (i, _), v in zip(single, verdicts):
+        mine[i] = v.startswith("ACCEPT")
+    with ThreadPoolExecutor(max_workers=8) as ex:
+        sd = list(ex.map(sd_verdict_unit, [(os.path.join(work, "r%04d" % i), HAND_UNITS[n]) for i, n in enumerate(names)]))
+    shutil.rmtree(work, ignore_errors=True)
+    dis = []
+    for n, a, m, (acc, msg) in zip(names, answers, mine, sd):
+        if acc is not None and acc != m:
+            dis.append({"unit": n, "reader": a[:200], "reader_accepts": m, "systemd_analyze": ("accept" if acc else "reject") + ": " + msg})
+    return {"unit_reader_files_checked": len(names), "unit_reader_disagreements": len(dis), "unit_reader_disagreement_samples": dis[:10],
+            "unit_reader_validation": "accept/reject of Systemd.service_exec_starts (exactly one assignment) + Systemd.decode vs `systemd-analyze verify` (v252) on hand-written unit files x@.service: comments and byte order marks inside continued lines, line ends, sections, resets, several ExecStart="}
+
+
 # ---------------------------------------------------------------- entry points
 
 def run(ctx):
@@ -284,6 +404,8 @@ def run(ctx):
             "monitor_evaluations": 2 * (summary.get("cases", 0) - summary.get("skipped", 0)),
             "monitor_hits_total": summary.get("hits", 0),
             "text_diffs_total": summary.get("diffs", 0),
+            "unit_text_differs_outside_exec_start": summary.get("outside", 0),
+            "exec_start_front_part_differs_from_model": summary.get("prefixdiff", 0),
             "sweep_scalars": sweep_n,
             "sweep_exhaustive": bool(sweep_n == 0x10ffff - 0x800),
             "generator": gen_line,
@@ -294,6 +416,7 @@ def run(ctx):
         }
         if tier == "thorough":
             stats.update(validate_decoder(ctx, os.path.join(build, "escape", "sd-validate"), case_lines, seed))
+            stats.update(validate_reader(ctx, os.path.join(build, "escape", "sd-validate-units")))
         res["stats"] = stats
         res["wall_s"] = round(time.time() - t0, 1)
         shutil.rmtree(work, ignore_errors=True)
@@ -320,7 +443,8 @@ def replay(ctx, rp):
     for x in h:
         print("C17.roundtrip fails (env %s): %s" % (x["input"]["environment"], x["observed"]))
     for x in d:
-        print("model and implementation differ: impl=%s model=%s" % (x["impl"][:200], x["model"][:200]))
+        print("model and implementation differ in the ExecStart= value systemd finds (exclude region on, or no intact front part): impl=%s model=%s" % (
+            json.dumps(x.get("impl_exec_start", x["impl"][:200])), json.dumps(x.get("model_exec_start", x["model"][:200]))))
     print("REPRODUCED" if (h or d) else "NOT REPRODUCED on the current tree")
     print("recorded: clause=%s observed=%s" % (rp.get("clause"), rp.get("observed")))
     return 0
